@@ -378,6 +378,40 @@ def g_lowpass(s, P):
     return P
 
 
+def g_datadict(s, P):
+    pops = s.choice([['YRI'], ['YRI'], ['YRI', 'CEU']])
+    nchrom = [s.choice([6, 8]) for _ in pops]
+    dd = P.add('mk_data_dict', s.randint(0, 3), s.choice([12, 25]), pops, nchrom, s.choice([2, 4]))
+    for _ in range(s.randint(1, 3)):
+        proj = [s.choice([2, 3, 4]) for _ in pops]
+        r = s.random()
+        if r < 0.5:
+            fs = P.add('from_data_dict', dd, pops, proj, True, s.chance(0.7))
+            if s.chance(0.5):
+                P.add('S.project', fs, [s.randint(1, n) for n in proj])
+        elif r < 0.65:
+            P.add('count_data_dict', dd, pops)
+        elif r < 0.8:
+            P.add('fragment_data_dict', dd, s.choice([150, 400]))
+        else:
+            P.add('bootstraps_from_dd', dd, s.choice([150, 400]), 3, pops, proj)
+    return P
+
+
+def g_lowpass_model(s, P):
+    """low-pass corrected model: two corrections with the same subsample sizes and different coverage distributions"""
+    f = {'$fn': 'model', 'id': 'two_epoch'}
+    nseq = [s.choice([6, 8])]
+    nsub = [s.choice([4, 6])]
+    nsub = [min(nsub[0], nseq[0])]
+    pts = [s.choice([10, 12])]
+    covs = [[[0, 1, 2, 3, 4, 5], [0.05, 0.25, 0.3, 0.2, 0.15, 0.05]], [[1, 2, 3, 4, 6, 8], [0.1, 0.2, 0.3, 0.2, 0.1, 0.1]],
+            [[2, 4, 8, 16, 20, 30], [0.1, 0.2, 0.3, 0.2, 0.1, 0.1]]]
+    for c in s.sample(covs, s.randint(1, 2)):
+        P.add('LP.lowpass_call', f, [s.choice([0.5, 2.0]), 0.05], nsub, pts, [c], nseq, s.choice([None, [0.3]]))
+    return P
+
+
 def g_opthelp(s, P):
     for _ in range(s.randint(1, 3)):
         k = s.randint(2, 4)
@@ -385,7 +419,7 @@ def g_opthelp(s, P):
         lb = [s.choice([None, 1e-2, 0.1]) for _ in range(k)]
         ub = [s.choice([None, 20.0, 100.0]) for _ in range(k)]
         if s.chance(0.5):
-            P.add('perturb_params', p, s.choice([1, 2]), lb, ub)
+            P.add('perturb_params', {'$arr': p} if s.chance(0.5) else p, s.choice([1, 2]), lb if s.chance(0.8) else None, ub if s.chance(0.8) else None)
         fixed = [s.choice([None, None, 1.5]) for _ in range(k)]
         down = P.add('project_params_down', p, fixed)
         P.add('project_params_up', down, fixed)
@@ -570,7 +604,7 @@ def g_interference(s, P):
 
 TEMPLATES = [
     (g_chain1d, 10), (g_chain2d, 12), (g_chain3d, 7), (g_chain4d, 6), (g_chain5d, 2), (g_spectrum, 10), (g_numerics, 7),
-    (g_lowpass, 4), (g_opthelp, 4), (g_objective, 3), (g_inbreeding, 4), (g_extrap, 5), (g_demes, 6), (g_godambe, 8), (g_godambe_neg, 2), (g_godambe_real, 2),
+    (g_lowpass, 4), (g_lowpass_model, 2), (g_datadict, 5), (g_opthelp, 4), (g_objective, 3), (g_inbreeding, 4), (g_extrap, 5), (g_demes, 6), (g_godambe, 8), (g_godambe_neg, 2), (g_godambe_real, 2),
 ]
 
 
